@@ -31,7 +31,7 @@ Definition wf_db (d : db) : Prop :=
 Definition wf_grid (g : grid) : Prop :=
   0 <= g_ndim g /\ zlen (g_nx g) = g_ndim g /\ zlen (g_x0 g) = g_ndim g /\ zlen (g_dx g) = g_ndim g /\
   zlen (g_angles g) = g_ndim g /\ Forall (fun v => 0 <= v) (g_nx g).
-Definition grid_ntotal (g : grid) : Z := if g_ndim g =? 0 then 0 else prodZ (g_nx g).
+Definition grid_ntotal (g : grid) : Z := ntotal_exact (g_ndim g) (g_nx g).
 Definition wf_dbgrid (x : dbgrid) : Prop :=
   wf_grid (dg_grid x) /\ wf_db (dg_db x) /\ d_nech (dg_db x) = grid_ntotal (dg_grid x).
 
